@@ -109,6 +109,21 @@ func (m *c13Model) run(hist []int) statespace.Outcome {
 	for i, oi := range hist {
 		op := m.ops[oi]
 		last := i == len(hist)-1
+		crashed := protect(func() { obs = m.step(e, pool, held, op, oi, last, hist, obs) })
+		if crashed != nil {
+			if _, isHarness := crashed.(HarnessError); isHarness {
+				panic(crashed)
+			}
+			m.violate("no-crash", map[string]any{"op": op.name}, fmt.Sprintf("%s panics: %v", op.name, crashed), hist)
+			return statespace.Outcome{Key: "crashed", Observation: "crash"}
+		}
+	}
+	return m.finish(e, st, pool, held, obs)
+}
+
+// step applies one operation.
+func (m *c13Model) step(e *scen.Engines, pool *shim.Pool[rules.Request], held map[int]*c13Held, op c13Op, oi int, last bool, hist []int, obs string) string {
+	{
 		switch {
 		case op.query != nil:
 			var ans string
@@ -174,7 +189,11 @@ func (m *c13Model) run(hist []int) statespace.Outcome {
 			}
 		}
 	}
-	// canonical key of the hidden state
+	return obs
+}
+
+// finish computes the canonical key of the hidden state.
+func (m *c13Model) finish(e *scen.Engines, st *filterlist.RuleStorage, pool *shim.Pool[rules.Request], held map[int]*c13Held, obs string) statespace.Outcome {
 	var sb strings.Builder
 	keys := filterlist.VerifCacheKeys(st)
 	for _, k := range keys {
